@@ -418,3 +418,44 @@ pub fn exprs_up_to(max: usize, nvars: usize) -> Vec<Ex> {
     }
     out
 }
+
+/// in-order numbering of a vtree with per-node variable masks (left side / right side)
+pub struct VtShape {
+    pub nodes: Vec<VT>,
+    pub left_mask: Vec<u32>,
+    pub right_mask: Vec<u32>,
+    pub is_leaf: Vec<bool>,
+    /// label of the left child if that child is a leaf
+    pub left_leaf: Vec<Option<usize>>,
+}
+
+impl VtShape {
+    pub fn new(t: &VT) -> VtShape {
+        fn rec(t: &VT, s: &mut VtShape) {
+            match t {
+                VT::Leaf(_) => {
+                    s.nodes.push(t.clone());
+                    s.left_mask.push(0);
+                    s.right_mask.push(0);
+                    s.is_leaf.push(true);
+                    s.left_leaf.push(None);
+                }
+                VT::Node(l, r) => {
+                    rec(l, s);
+                    s.nodes.push(t.clone());
+                    s.left_mask.push(l.leaf_mask());
+                    s.right_mask.push(r.leaf_mask());
+                    s.is_leaf.push(false);
+                    s.left_leaf.push(match l.as_ref() {
+                        VT::Leaf(v) => Some(*v),
+                        _ => None,
+                    });
+                    rec(r, s);
+                }
+            }
+        }
+        let mut s = VtShape { nodes: vec![], left_mask: vec![], right_mask: vec![], is_leaf: vec![], left_leaf: vec![] };
+        rec(t, &mut s);
+        s
+    }
+}
